@@ -40,13 +40,11 @@ fn min_pool(prog: &Program) -> usize {
     m
 }
 
+/// operations with which a context waits for a future (as opposed to polling it once and walking away)
 fn has_polling_ops(prog: &Program) -> bool {
     let mut f = false;
     prog.for_each_op(&mut |op| {
-        if matches!(
-            op.k,
-            OpKind::Await { .. } | OpKind::PollOnce { .. } | OpKind::SyncWait { .. } | OpKind::FutureSync { .. } | OpKind::Suspend { .. } | OpKind::PipeIn { .. } | OpKind::Pipe { .. } | OpKind::Next { .. } | OpKind::PollNext { .. }
-        ) {
+        if matches!(op.k, OpKind::Await { .. } | OpKind::SyncWait { .. } | OpKind::FutureSync { .. } | OpKind::Suspend { .. } | OpKind::PipeIn { .. } | OpKind::Pipe { .. } | OpKind::Next { .. } | OpKind::PollNext { .. }) {
             f = true
         }
     });
@@ -112,6 +110,23 @@ pub fn liveness_mode(prog: &Program) -> Live {
     } else {
         Live::None
     }
+}
+
+/// Is a sync caller that sleeps on a claimable queue actually owed progress?  Only if nothing it may be queued
+/// behind is legitimately unfinished: every other accepted operation on the object has finished, was cancelled, or is
+/// inside the object with its event already fired (running the queue would complete it).
+pub fn sync_is_owed_progress(world: &World, r: &OpRec) -> bool {
+    let Some(o) = r.obj else { return false };
+    world.ops.iter().filter(|x| x.id != r.id && x.obj == Some(o) && x.kind.ordered() && matches!(x.outcome, CallOutcome::Returned(_))).all(|x| {
+        if x.fin.is_some() {
+            return true;
+        }
+        if x.kind == Kind::FutureSync {
+            // its slot is released once its future has gone
+            return x.handle.map_or(false, |h| world.hrec[h].dropped_at.is_some());
+        }
+        x.start.is_some() && x.waiting_gate.map_or(false, |g| world.gates[g].open || x.waiting_gate_alt.map_or(false, |g2| world.gates[g2].open))
+    })
 }
 
 pub fn analyse(rep: &RunReport) -> Verdict {
@@ -476,6 +491,16 @@ pub fn analyse(rep: &RunReport) -> Verdict {
         }
     }
 
+    // C04 at every quiescence: nobody is going to wake a caller that sleeps on a queue it could run itself
+    if live == Live::Full || live == Live::SyncOnly {
+        for snap in facts.q1.iter().chain(facts.q2.iter()) {
+            for (id, o, st) in &snap.asleep_syncs {
+                let r = &ops[*id as usize];
+                v(&mut out, "C04", "sync_asleep_on_claimable_queue", &[*id], snap.seq, format!("everything had gone quiet, yet {} {} on object {} slept on a condition variable while its queue was claimable (state tag {}): only an outside event could still rescue it", r.tag, id, o, st));
+            }
+        }
+    }
+
     // C15: after the panic the pool can still stall as many jobs at once as its maximum allows
     let probe: Vec<u32> = prog.capacity_probe.iter().copied().filter(|id| (*id as usize) < ops.len() && ops[*id as usize].kind == Kind::Desync && ops[*id as usize].blocking_steps).collect();
     if !probe.is_empty() && probe.len() == prog.capacity_probe.len() && world.objs.iter().any(|o| o.panic_injected) {
@@ -766,7 +791,8 @@ fn blame_hang(rep: &RunReport, live: Live, out: &mut Vec<Violation>, verdict: &m
         }
         // 1. a caller asleep in sync although it could run the queue itself
         for r in ops.iter().filter(|r| r.obj == Some(o) && r.kind == Kind::Sync && r.outcome == CallOutcome::InCall && r.start.is_none()) {
-            if matches!(task_state(r.thread), Some(TState::Blocked(Wait::Condvar(_)))) && matches!(qstate, Some(0) | Some(1)) {
+            let event_fired = ops.iter().any(|x| x.obj == Some(o) && x.start.is_some() && x.fin.is_none() && x.kind != Kind::FutureSync && x.waiting_gate.map_or(false, |g| world.gates[g].open || x.waiting_gate_alt.map_or(false, |g2| world.gates[g2].open)));
+            if matches!(task_state(r.thread), Some(TState::Blocked(Wait::Condvar(_)))) && (matches!(qstate, Some(0) | Some(1)) || (qstate == Some(5) && event_fired)) && sync_is_owed_progress(world, r) {
                 v(out, "C04", "sync_asleep_on_claimable_queue", &[r.id], r.inv.unwrap_or(0), describe(r));
                 props_found += 1;
             }
